@@ -23,7 +23,7 @@ def run(tier, seed, replay=None):
     from splipy.utils import refinement
     rng = random.Random(seed)
     tol = C.fr(state.knot_tolerance)
-    nobj = 200 if tier == 'quick' else 3500
+    nobj = 450 if tier == 'quick' else 3500
     cases = []
     dist = {'pardim': {}, 'periodic_dir': {}, 'n_points': {}, 'point_kind': {}, 'errors': {}}
     if replay:
